@@ -198,7 +198,7 @@ def run(rng, tier, model_ok):
     return {
         "evaluations": len(queries), "distinct_nontrivial": len({(q, ex) for q, ex in queries}),
         "rule": "random queries (numeric expressions, mixed expressions with units, calls and casts, quantities over the whole vocabulary, facts, "
-                "malformed and failing queries), 40% with --exact, through the real binary; non-trivial = distinct (query, mode) pairs",
+                "malformed and failing queries), plural boundary values, signed magnitudes 1e-30..1e30, unit powers of several digits, blanks around failing queries; 40% of the random ones with --exact, through the real binary; every printed number also read back independently; non-trivial = distinct (query, mode) pairs",
         "samples": [{"query": q, "exact": ex, "stdout": o[0][:120]} for (q, ex), o in list(zip(queries, outs))[:6]],
         "mismatches": mismatches, "failures": failures,
         "extra": dict(stats, model_cases_evaluated_in_coq=len(cases), exhaustive=False),
